@@ -272,8 +272,9 @@ class SATEncoder:
         var.bool_vars = {}
         for v in range(lb, ub + 1):
             var.bool_vars[v] = self._new_bool_var()
-        self.model._vars[name] = var
-        # Auxiliary variables are created after _encode_vars ran: ground them here
+        # Auxiliary variables live for one encoding only (registering them in the model would make a
+        # later solve re-encode them with literals that collide with freshly allocated ones).
+        # They are created after _encode_vars ran: ground them here
         self._encode_exactly_one(list(var.bool_vars.values()))
         return var
 
